@@ -32,16 +32,18 @@ Module PL.
 Definition is_arr (j : json) : bool := match j with JArr _ => true | _ => false end.
 Definition is_obj (j : json) : bool := match j with JObj _ => true | _ => false end.
 
-(* serde_json: Value::from(u64/i64) as f64 is the correctly rounded conversion *)
-Definition float_of_Z (z : Z) : float :=
-  match z with
-  | Z0 => PrimFloat.zero
-  | Zpos p => SF2Prim (binary_normalize 53 1024 (Zpos p) 0 false)
-  | Zneg p => PrimFloat.opp (SF2Prim (binary_normalize 53 1024 (Zpos p) 0 false))
-  end.
-(* Value::as_f64 *)
-Definition as_f64 (j : json) : option float :=
-  match j with JInt z => Some (float_of_Z z) | JFloat f => Some f | _ => None end.
+(* The f64 weights of the load balancer are used through this interface only (Value::as_f64,
+   json!(w), 0.0, 1.0, +, OrderedFloat's <): theorems hold for every instance, execution uses the
+   binary64 instance of Model/PipelineRun.v. *)
+Record wops := {
+  wt : Type;
+  w_zero : wt;
+  w_one : wt;
+  w_add : wt -> wt -> wt;
+  w_lt : wt -> wt -> bool;           (* OrderedFloat order: NaN is the greatest element *)
+  w_of_json : json -> option wt;     (* Value::as_f64 *)
+  w_to_json : wt -> json             (* json!(w) *)
+}.
 (* Value::as_u64 *)
 Definition as_u64 (j : json) : option Z :=
   match j with JInt z => if (0 <=? z)%Z then Some z else None | _ => None end.
@@ -168,23 +170,22 @@ Definition chunk_size (len par : nat) : nat :=
   Nat.max 1 (if Nat.eqb par 0 then len else ceil_div len par).
 
 (* ------------------------------------------------------------------ weights and load balancing *)
+Section W.
+Variable wo : wops.
+Notation W := (wt wo).
 (* get_query_weight_estimate: None when absent, Err when present and not a number *)
-Definition weight_estimate (q : json) : res (option float) :=
+Definition weight_estimate (q : json) : res (option W) :=
   match jget q "query_weight_estimate" with
   | None => Ok None
-  | Some v => match as_f64 v with Some f => Ok (Some f) | None => Err "QueryFieldHasInvalidType" end
+  | Some v => match w_of_json wo v with Some f => Ok (Some f) | None => Err "QueryFieldHasInvalidType" end
   end.
-(* OrderedFloat's order on the bin totals: NaN is the greatest element *)
-Definition is_nan (f : float) : bool := negb (PrimFloat.eqb f f).
-Definition of_lt (a b : float) : bool :=
-  if is_nan a then false else if is_nan b then true else PrimFloat.ltb a b.
 (* Iterator::min_by_key returns the FIRST minimal element *)
-Fixpoint min_idx_from (i : nat) (best_i : nat) (best : float) (l : list float) : nat :=
+Fixpoint min_idx_from (i : nat) (best_i : nat) (best : W) (l : list W) : nat :=
   match l with
   | [] => best_i
-  | x :: r => if of_lt x best then min_idx_from (S i) i x r else min_idx_from (S i) best_i best r
+  | x :: r => if w_lt wo x best then min_idx_from (S i) i x r else min_idx_from (S i) best_i best r
   end.
-Definition min_bin (bins : list float) : option nat :=
+Definition min_bin (bins : list W) : option nat :=
   match bins with [] => None | x :: r => Some (min_idx_from 1 0 x r) end.
 Fixpoint upd {A} (i : nat) (f : A -> A) (l : list A) : list A :=
   match l, i with
@@ -193,7 +194,7 @@ Fixpoint upd {A} (i : nat) (f : A -> A) (l : list A) : list A :=
   | x :: r, S i' => x :: upd i' f r
   end.
 (* apply_load_balancing_policy(queries, parallelism, 1.0); bins keep insertion order *)
-Fixpoint balance (qs : list json) (totals : list float) (bins : list (list json)) : res (list (list json)) :=
+Fixpoint balance (qs : list json) (totals : list W) (bins : list (list json)) : res (list (list json)) :=
   match qs with
   | [] => Ok bins
   | q :: r =>
@@ -202,8 +203,8 @@ Fixpoint balance (qs : list json) (totals : list float) (bins : list (list json)
           match min_bin totals with
           | None => Err "InternalError: cannot find min bin of empty slice"
           | Some i =>
-              let w' := match w with Some f => f | None => PrimFloat.one end in
-              balance r (upd i (fun t => PrimFloat.add t w') totals) (upd i (fun b => app b [q]) bins)
+              let w' := match w with Some f => f | None => w_one wo end in
+              balance r (upd i (fun t => w_add wo t w') totals) (upd i (fun b => app b [q]) bins)
           end
       | Err c => Err c
       | Panic w => Panic w
@@ -213,7 +214,7 @@ Fixpoint balance (qs : list json) (totals : list float) (bins : list (list json)
 Definition load_balance (qs : list json) (par : nat) : res (list (list json)) :=
   match qs with
   | [] => Ok []
-  | _ => balance qs (repeat PrimFloat.zero par) (repeat [] par)
+  | _ => balance qs (repeat (w_zero wo) par) (repeat [] par)
   end.
 
 (* ------------------------------------------------------------------ sequential / parallel composition *)
@@ -359,14 +360,16 @@ Definition lb_numeric (column : option string) : plugin := fun q =>
   match jget q col with
   | None => PFail q "QueryFieldHasInvalidType"
   | Some v =>
-      match as_f64 v with
+      match w_of_json wo v with
       | None => PFail q "QueryFieldHasInvalidType"
       | Some w => match q with
-                  | JObj m => PDone (JObj (oset m "query_weight_estimate" (JFloat w)))
+                  | JObj m => PDone (JObj (oset m "query_weight_estimate" (w_to_json wo w)))
                   | _ => PFail q "UnexpectedQueryStructure"
                   end
       end
   end.
+
+End W.
 
 (* GridSearchPlugin::process *)
 (* serde_json::to_string(section).contains("grid_search"): the text can only occur inside a key
